@@ -40,7 +40,7 @@ inductive Msg where
   | unknownField | notIndexable | memberOperator | unknownMember | impossibleCast | castToFunction
   | missingDefault | nonConstantGlobal | duplicateGlobal | returnOutsideFunction | breakOutsideLoop
   | continueOutsideLoop | notIterable | loopBody | duplicateFunction | mainParams | mainReturn
-  | mainMissing
+  | mainMissing | nameClash
   deriving Repr, DecidableEq, Inhabited
 
 def Msg.name : Msg → String
@@ -60,6 +60,7 @@ def Msg.name : Msg → String
   | .breakOutsideLoop => "breakOutsideLoop" | .continueOutsideLoop => "continueOutsideLoop"
   | .notIterable => "notIterable" | .loopBody => "loopBody" | .duplicateFunction => "duplicateFunction"
   | .mainParams => "mainParams" | .mainReturn => "mainReturn" | .mainMissing => "mainMissing"
+  | .nameClash => "nameClash"
 
 /-! ## Equality test (used by examples and the driver; `DecidableEq` cannot be derived for
 the nested type) -/
